@@ -55,7 +55,8 @@ def targets(rng, held):
     c = rng.choice([1, 2, 3])
     t.append('%d K req %s %d' % (c, rng.choice(NAMES), rng.randrange(8)))
     t.append('%d K rel %s' % (rng.choice([1, 2, 3]), rng.choice(NAMES)))
-    t.append('%d K addmatch %s' % (c, hexs(rng.choice(RULES))))
+    # (half of the time a rule the caller already holds: a failed addition must not disturb the older, identical one)
+    t.append('%d K addmatch %s' % (c, hexs(rng.choice(held[c]) if held[c] and rng.random() < 0.5 else rng.choice(RULES))))
     c2 = rng.choice([1, 2, 3])
     t.append('%d K rmmatch %s' % (c2, hexs(rng.choice(held[c2] or RULES))))
     t.append('%d K sig com.example.I Ma %s' % (c, hexs(rng.choice(['x', 'y']))))
@@ -134,6 +135,8 @@ def run(ctx):
                 for hq, tq in ((['1 -1 req com.example.A %d' % rng.randrange(8)], '1 K rel com.example.A'),
                                (['1 -1 req com.example.A %d' % rng.choice([0, 1]), '2 -1 req com.example.A %d' % rng.choice([0, 1]),
                                  '3 -1 req com.example.A 0'], '%d K rel com.example.A' % rng.choice([1, 1, 2])),
+                               # the caller adds a rule it already holds: whatever fails, the older identical rule stays
+                               (['1 -1 addmatch %s' % hexs(RULES[1])] * rng.choice([1, 2]), '1 K addmatch %s' % hexs(RULES[1])),
                                # a queued owner replaces a primary owner that allows it (owners change places, nothing is
                                # removed: the undo of the swap) -- behind one or two queue entries
                                (['1 -1 req com.example.A 1', '2 -1 req com.example.A 0', '3 -1 req com.example.A %d' % rng.choice([0, 1])],
@@ -146,6 +149,8 @@ def run(ctx):
                     last = json.loads(out.strip().splitlines()[-1])
                     n = max((o.get('allocs', 0) for ops in last['ops'] for o in ops), default=0)
                     ks = list(range(n)) if n <= maxk else sorted(set(int(i * (n - 1) / (maxk - 1)) for i in range(maxk)))
+                    if ' addmatch ' in tq:
+                        ks = list(range(n))          # (only one or two allocations lie inside the insertion itself)
                     for k in ks:
                         c = tq.split()[0]
                         jobs.append((hh + [tq.replace(' K ', ' %d ' % k), 'dump', tq.replace(' K ', ' -1 '), 'dump', '%s -1 req com.example.B 0' % c,
